@@ -147,6 +147,22 @@ pub fn generate(ch: &mut Chooser, o: &NetOpts) -> NetPlan {
             }
         }
     }
+    // BMCA phases: independent per node, or all nodes in lock-step (their BMCA runs coincide and the
+    // tape orders them), or at the extremes of the interval
+    match ch.weighted(S_CFG, &[4, 1, 1]) {
+        1 => {
+            let shared = ch.range(S_CFG, 1, 999);
+            for nd in nodes.iter_mut() {
+                nd.bmca_phase_pm = shared;
+            }
+        }
+        2 => {
+            for nd in nodes.iter_mut() {
+                nd.bmca_phase_pm = *ch.pick(S_CFG, &[1u64, 999, 500]);
+            }
+        }
+        _ => {}
+    }
     // the announce interval is a per-port setting: in a quarter of the networks segments differ
     // (all ports of one segment agree, ports of one boundary clock need not)
     let mut max_log = announce_log;
